@@ -403,7 +403,8 @@ func c13verify(r *report.Report, codec *refper.Codec, s *refper.Schema, who, cla
 			}
 		}
 		if msg == "NGSetupRequest" && nb == 0 {
-			r.HarnessError("no broadcast PLMN found in an NG Setup Request (schema name changed?)")
+			// (also the guard against this loop silently finding nothing to compare)
+			r.Violate("builder/"+who+"/no-broadcast-PLMN-in-the-supported-TA-list", cs, "the NG Setup Request carries no broadcast PLMN at all", nil)
 		}
 		if n := find("RANNodeName"); len(n) != 1 || string(n[0].Get("Value").B) != a.name {
 			r.Violate("builder/"+who+"/gNB-name-differs-from-argument", cs, fmt.Sprintf("%v vs %q", n, a.name), nil)
@@ -645,9 +646,15 @@ func runC13(ctx *Ctx) {
 		if perr := recoverErr(func() { pdu = bd.build(base) }); perr != nil {
 			continue
 		}
-		enc1, err1 := ngap.Encoder(pdu)
+		var enc1, enc2 []byte
+		var err1, err2 error
+		if perr := recoverErr(func() { enc1, err1 = ngap.Encoder(pdu) }); perr != nil {
+			err1 = perr
+		}
 		tp.BuildNGSetupRequest(plmns[2])
-		enc2, err2 := ngap.Encoder(pdu)
+		if perr := recoverErr(func() { enc2, err2 = ngap.Encoder(pdu) }); perr != nil {
+			err2 = perr
+		}
 		cs := fmt.Sprintf("%s built after [NGSetup plmn=%x], encoded, [NGSetup plmn=%x], encoded again", bd.name, plmns[0], plmns[2])
 		l.Case(cs, true, "")
 		if (err1 == nil) != (err2 == nil) || !bytes.Equal(enc1, enc2) {
